@@ -823,8 +823,11 @@ fn json_struct_case(out: &mut Out, t: &Table, rng: &mut Rng, name: &str) {
         out.count("json-TransactionView");
     }
     if name == "Block" {
-        let p = packed::Block::from_slice(&bytes).unwrap();
-        let view = p.clone().into_view();
+        // `Block::into_view()` (used by the json -> core conversion) RESETS transactions_root /
+        // proposals_hash / extra_hash in the header from the body, so the identity is stated for
+        // blocks whose header is consistent with the body (made consistent by the same call)
+        let view = packed::Block::from_slice(&bytes).unwrap().into_view();
+        let p = view.data();
         let j: json::BlockView = view.clone().into();
         let s = serde_json::to_string(&j).unwrap();
         let j2: json::BlockView = serde_json::from_str(&s).unwrap();
@@ -1042,7 +1045,7 @@ fn hash_case(out: &mut Out, t: &Table, rng: &mut Rng) {
     } else {
         gen_packed(t, rng, "Block", 2500)
     };
-    let bv = blk.clone().into_view();
+    let bv = blk.clone().into_view_without_reset_header();
     let txs: Vec<packed::Transaction> = blk.transactions().into_iter().collect();
     let th: Vec<[u8; 32]> = txs.iter().map(|x| b2(x.raw().as_slice())).collect();
     let wh: Vec<[u8; 32]> = txs.iter().map(|x| b2(x.as_slice())).collect();
@@ -1057,6 +1060,11 @@ fn hash_case(out: &mut Out, t: &Table, rng: &mut Rng) {
         out.oracle_fail("hash-txroot", &format!("transactions_root differs from CBMT(CBMT(tx hashes), CBMT(witness hashes)): {}", hex(blk.as_slice())));
     }
     out.count("block-root");
+    // `into_view()` resets the header roots from the body: they must equal the independent recomputation
+    let rv = blk.clone().into_view();
+    if rv.transactions_root().as_slice() != &root[..] || rv.data().transactions().as_slice() != blk.transactions().as_slice() || rv.hash().as_slice() != &b2(rv.data().header().as_slice())[..] {
+        out.oracle_fail("hash-reset-view", &format!("Block::into_view() header reset inconsistent: {}", hex(blk.as_slice())));
+    }
     // order: swap two transactions with different content
     if txs.len() >= 2 {
         let i = rng.below(txs.len() as u64) as usize;
@@ -1064,7 +1072,7 @@ fn hash_case(out: &mut Out, t: &Table, rng: &mut Rng) {
         if txs[i].as_slice() != txs[j].as_slice() {
             let mut t2 = txs.clone();
             t2.swap(i, j);
-            let b2v = blk.clone().as_builder().transactions(t2).build().into_view();
+            let b2v = blk.clone().as_builder().transactions(t2).build().into_view_without_reset_header();
             if b2v.calc_transactions_root() == bv.calc_transactions_root() {
                 out.oracle_fail("hash-txroot-order", &format!("transactions_root unchanged after swapping tx {} and {}: {}", i, j, hex(blk.as_slice())));
             }
@@ -1077,7 +1085,7 @@ fn hash_case(out: &mut Out, t: &Table, rng: &mut Rng) {
         let mut t2 = txs.clone();
         let w: packed::Bytes = gen_packed(t, rng, "Bytes", 20);
         t2[i] = t2[i].clone().as_builder().witnesses(t2[i].witnesses().as_builder().push(w).build()).build();
-        let b2v = blk.clone().as_builder().transactions(t2).build().into_view();
+        let b2v = blk.clone().as_builder().transactions(t2).build().into_view_without_reset_header();
         if b2v.calc_transactions_root() == bv.calc_transactions_root() {
             out.oracle_fail("hash-txroot-witness", &format!("transactions_root unchanged after changing a witness of tx {}: {}", i, hex(blk.as_slice())));
         }
